@@ -5,6 +5,7 @@ from ..rules import shutdown as S
 from ..rules import broken as B
 from ..rules import tracker as T
 from ..rules import scenario as SC
+from ..rules import contain as C
 
 EXPLANATION = (
     "Static analysis (resource pairing on all normal exits + reachability). Decides: the wake-up close() closes both ends; "
@@ -32,4 +33,5 @@ def run(e, R, tier):
         P.r_exitcode,
         T.r_relaunch,
         SC.r_scn_wakeprim,
+        C.r_feeder,
     ])
